@@ -496,41 +496,41 @@ impl<'tcx> TyGenContext<'_, 'tcx> {
                     return_type => unreachable!("AST/HIR variant {:?} unknown.", return_type),
                 };
 
-                let layout = match ok {
-                    SuccessType::Unit => crate::js::layout::unit_size_alignment(),
-                    SuccessType::OutType(ref o) => {
-                        crate::js::layout::type_size_alignment(o, self.tcx)
-                    }
-                    SuccessType::Write => match return_type {
-                        ReturnType::Fallible(_, ref err) if err.is_some() => {
-                            crate::js::layout::type_size_alignment(&err.clone().unwrap(), self.tcx)
+                // `DiplomatResult<T, E>` is `#[repr(C)] { union { ok: T, err: E }, is_ok: bool }`: the buffer Rust writes it
+                // into needs the alignment of the more strictly aligned arm, the flag sits right after the union
+                // (whose size is rounded up to that alignment), and the whole value is padded to its alignment.
+                // Unit, write-out and field-less struct arms occupy nothing.
+                let arm_layout =
+                    |(layout, scalars): (std::alloc::Layout, crate::js::layout::ScalarCount)| {
+                        if scalars == crate::js::layout::ScalarCount::Zst {
+                            std::alloc::Layout::new::<()>()
+                        } else {
+                            layout
                         }
-                        ReturnType::Fallible(_, None) | ReturnType::Nullable(_) => {
-                            crate::js::layout::unit_size_alignment()
-                        }
-                        _ => unreachable!("AST/HIR variant {:?} unknown.", return_type),
-                    },
+                    };
+                let ok_layout = match ok {
+                    SuccessType::OutType(ref o) => arm_layout(
+                        crate::js::layout::type_size_alignment_and_scalar_count(o, self.tcx),
+                    ),
+                    SuccessType::Unit | SuccessType::Write => std::alloc::Layout::new::<()>(),
                     _ => unreachable!("AST/HIR variant {:?} unknown.", return_type),
                 };
-                // Add size for checking whether or not we're a pass/fail result. And we make sure to see if our error type is bigger, so if we need to add extra width based on that:
-                let size = std::cmp::max(
-                    layout.size(),
-                    match return_type {
-                        // We already account for an error in the Write match up above:
-                        ReturnType::Fallible(_, e) if e.is_some() => {
-                            crate::js::layout::type_size_alignment(&e.clone().unwrap(), self.tcx)
-                                .size()
-                        }
-                        _ => 0,
-                    },
-                ) + 1;
-                let align = layout.align();
+                let err_layout = match return_type {
+                    ReturnType::Fallible(_, Some(e)) => arm_layout(
+                        crate::js::layout::type_size_alignment_and_scalar_count(e, self.tcx),
+                    ),
+                    _ => std::alloc::Layout::new::<()>(),
+                };
+                let align = std::cmp::max(ok_layout.align(), err_layout.align());
+                let flag_offset =
+                    std::cmp::max(ok_layout.size(), err_layout.size()).next_multiple_of(align);
+                let size = (flag_offset + 1).next_multiple_of(align);
 
                 if requires_buf {
                     method_info.alloc_expressions.push(
                         format!(
-                            "const diplomatReceive = new diplomatRuntime.DiplomatReceiveBuf(wasm, {}, {}, true);",
-                            size, align
+                            "const diplomatReceive = new diplomatRuntime.DiplomatReceiveBuf(wasm, {}, {}, true, {});",
+                            size, align, flag_offset
                         )
                         .into(),
                     );
